@@ -333,6 +333,12 @@ var selCases = []selCase{
 	{"nosuch=>m[keep=>each:0]", func(d *selDoc) (any, bool) { return nil, true }},
 	{"mix=>m[keep=>each:each]::[0]", func(d *selDoc) (any, bool) { return d.x, false }},
 	{"distinct=>a", func(d *selDoc) (any, bool) { return nil, true }},
+	// segments the selector parser rejects, first and after valid segments (an error every time they are evaluated)
+	{"arr[zz]", func(d *selDoc) (any, bool) { return nil, true }},
+	{"a::[zz]", func(d *selDoc) (any, bool) { return nil, true }},
+	{"arr[each].b::[(1:2:3)]", func(d *selDoc) (any, bool) { return nil, true }},
+	{"o::p::[99999999999999999999]", func(d *selDoc) (any, bool) { return nil, true }},
+	{"nest::b::[1]::[zz]", func(d *selDoc) (any, bool) { return nil, true }},
 }
 
 // H_C09_reader: ExecReader on documented selector forms over a document
